@@ -19,12 +19,12 @@ import (
 
 // Crash is an abnormal worker death attributed to a case.
 type Crash struct {
-	CaseID  string `json:"case_id"`
-	Kind    string `json:"kind"`
-	Class   string `json:"class"` // "fatal", "timeout"
-	Stderr  string `json:"stderr"`
-	Repro   int    `json:"reproduced"`
-	Params  json.RawMessage
+	CaseID string `json:"case_id"`
+	Kind   string `json:"kind"`
+	Class  string `json:"class"` // "fatal", "timeout"
+	Stderr string `json:"stderr"`
+	Repro  int    `json:"reproduced"`
+	Params json.RawMessage
 }
 
 type Result struct {
